@@ -20,7 +20,7 @@ LEVEL = "exploration"
 RULE = ("(a) exhaustive: all sequences up to depth 4 (quick) / 5 (thorough) over 32 line-buffer operations (27 edits = "
         "{first,middle,end} x {0,1,2 deleted} x {none,1 line,2 lines}, end-of-command, undo, redo, saved, unsaved-by-partial-write) from buffers of 0-2 "
         "lines, and up to depth 7/8 over a reduced 9-operation alphabet; (b) random line-buffer sequences to length 200 with "
-        "arbitrary texts; (c) random ex and vi command histories with undo/redo and new edits after undo, the text observed "
+        "arbitrary texts, plus deterministic histories of 120..1030 edits that cross every doubling of the edit log (128..1024 entries) and are undone to the start, redone and undone again; (c) random ex and vi command histories with undo/redo and new edits after undo, the text observed "
         "after every step.  Non-trivial = history with >=2 undos or (>=1 undo and >=1 redo), and >=1 edit (for (c): at "
         "least one compound command or an edit after an undo as well); distinct by SHA-1 of the case")
 ASSUMPTIONS = ["every editor command ends with lbuf_modified(); undo, redo and write are commands of their own (this is how ex_command() "
@@ -349,7 +349,38 @@ def extra(env, tier, seed):
                      "exhaustive": True, "evaluations": n, "operations": ops, "distinct_nontrivial": nt,
                      "samples": ["start=1 ops: E(first,del 1,'a') N U R E(end,del 0,'b c')", "start=2 ops: E(mid,1,NULL) U U R S U"],
                      "violations": viol[:2]})
+    outl.append(_growth_family(env, seed))
     return outl
+
+
+def _growth_case(n, seed, group):
+    """n edits in commands of `group` edits each, then every step undone (two more undos must fail), redone, undone again."""
+    texts = ["a", None, "bb\ncc", "é日", "zz\n", "x y\nq\nr"]
+    ops, steps = [], 0
+    for i in range(n):
+        ops.append(["E", (i * 7 + seed) % 9, (i + seed) % 3, texts[(i * 5 + seed) % len(texts)]])
+        if (i + 1) % group == 0 or i == n - 1:
+            ops.append(["N"])
+            steps += 1
+    ops += [["U"]] * (steps + 2) + [["R"]] * (steps + 2) + [["U"]] * (steps // 2) + [["E", 0, 1, "new"], ["N"], ["R"], ["U"]] + [["U"]] * steps
+    return {"kind": "lb", "start": (n + seed) % 3, "ops": ops}
+
+
+def _growth_family(env, seed):
+    """The edit log (hist[]) starts with room for 128 entries and doubles: histories that cross 128, 256, 512 and 1024 entries."""
+    ns = sorted(set(list(range(120, 140)) + list(range(250, 262)) + list(range(508, 518)) + [1023, 1024, 1025, 1030]))
+    # the probe's snapshot model keeps at most 1024 steps (MAXH in p04.c): the histories past 1000 edits use commands of 3 edits
+    cases = [_growth_case(n, seed, g) for n in ns for g in (1, 3) if n // g < 900]
+    viol = []
+    with ThreadPoolExecutor(16) as ex:
+        for c, o in zip(cases, ex.map(lambda c: _run_lb(env, c), cases)):
+            if not o.ok:
+                viol.append({"case": c, "text": str((o.detail or {}).get("why"))[:600]})
+    return {"name": "lbuf_histories_across_the_growth_of_the_edit_log_128_to_1024", "exhaustive": False, "evaluations": len(cases),
+            "distinct_nontrivial": len(cases),
+            "samples": ["130 single-edit commands, 132 undos, 132 redos, 65 undos, a new edit, a redo that must fail, undo to the start",
+                        "1025 edits in commands of 3, all undone, redone, half undone, new edit, undone to the start"],
+            "violations": viol[:2]}
 
 
 _orig_run_case = run_case
